@@ -348,3 +348,134 @@ package actor
 //@   ensures never-the-target: forall j int :: 0 <= j && j < len(result) ==> !same_peer(result[j], target)
 //@   ensures all-others: forall i int :: 0 <= i && i < len(peers) && !same_peer(peers[i], target) ==> exists(j, 0, len(result), result[j] == peers[i])
 //@   ensures input-untouched: old_objects_unchanged(peers)
+
+// ---------------------------------------------------------------------------
+//@ property C43
+//@ load github.com/tochemey/goakt/v4/internal/commands
+// Flow control. Both controllers are actors (one handler at a time, C01), so
+// "under any fault and speed pattern" = each handler is correct for every
+// argument and every controller state.
+
+// ---- producer side: nothing is emitted beyond the granted demand ---------------
+//@ func (*producerController).emitSequenced(x, ctx, messageID, seq, payload, chunk)
+//@   preserve producerController.demandUpTo, producerController.consumerController
+//@   at call 1 of (*producerController).tell assert never-beyond-demand: seq <= x.demandUpTo && x.consumerController != nil && arg2 == x.consumerController
+
+//@ structural callers github.com/tochemey/goakt/v4/internal/commands::NewSequencedMessage: (*producerController).emitSequenced, (*workPullingProducerController).emitSequenced
+//@ structural callers github.com/tochemey/goakt/v4/internal/commands::NewChunkedSequencedMessage: (*producerController).emitSequenced, (*workPullingProducerController).emitSequenced
+//@ structural writers producerController.consumerController: (*producerController).PreStart, (*producerController).handleRegisterConsumer, (*producerController).handleTerminated
+
+// demandUpTo has exactly these writers; a Request sets it to the carried bound,
+// which is at most ConfirmedSeq + the protocol window and never below it
+//@ structural writers producerController.demandUpTo: (*producerController).PreStart, (*producerController).handleRegisterConsumer, (*producerController).handleRequest, (*producerController).handleTerminated
+
+// a new registration generation (fresh nonce) never inherits the demand granted
+// to the previous one; re-acks of the same generation leave demand alone
+//@ func (*producerController).handleRegisterConsumer(x, ctx, register)
+//@   requires register != nil
+//@   preserve producerController.demandUpTo, producerController.currentSeq, producerController.registrationNonce, producerController.confirmedSeq
+//@   ensures new-generation-resets-demand: x.registrationNonce != old(x.registrationNonce) ==> x.demandUpTo == x.currentSeq
+//@   ensures same-generation-keeps-demand: x.demandUpTo == old(x.demandUpTo) || x.demandUpTo == x.currentSeq
+//@   ensures watermark-untouched: x.confirmedSeq == old(x.confirmedSeq) && x.currentSeq == old(x.currentSeq)
+
+//@ structural writers producerController.currentSeq: (*producerController).PreStart, (*producerController).storeChunks, (*producerController).completeStoreChunked, (*producerController).completeStore
+//@ structural writers producerController.registrationNonce: (*producerController).PreStart, (*producerController).handleRegisterConsumer, (*producerController).handleTerminated
+
+//@ func (*producerController).handleTerminated(x, ctx, msg)
+//@   preserve producerController.demandUpTo, producerController.currentSeq, producerController.consumerController
+//@   ensures unregistering-resets-demand: x.consumerController != old(x.consumerController) ==> x.demandUpTo == x.currentSeq
+//@   ensures otherwise-untouched: x.demandUpTo == old(x.demandUpTo) || x.demandUpTo == x.currentSeq
+
+//@ func (*producerController).resendUnconfirmed(x, ctx)
+//@   preserve producerController.demandUpTo
+//@   at call 1 of (*producerController).emitSequenced assert resends-within-demand: arg3 <= x.demandUpTo && arg3 <= x.currentSeq
+
+// ---- consumer side: the receive buffer never exceeds the window -----------------
+//@ func (*consumerController).bufferMessage(x, ctx, msg)
+//@   requires msg != nil && len(x.buffer) <= x.window
+//@   preserve consumerController.buffer
+//@   ensures buffer-bounded: len(x.buffer) <= x.window
+//@   ensures grows-by-at-most-one: len(x.buffer) <= old(len(x.buffer)) + 1 && len(x.buffer) >= old(len(x.buffer))
+
+//@ structural mapwriters consumerController.buffer: (*consumerController).PreStart, (*consumerController).handleRegistrationAck, (*consumerController).bufferMessage, (*consumerController).drain, (*consumerController).purgeBuffer
+
+//@ func (*consumerController).purgeBuffer(x)
+//@   loop 1 invariant cut-in-range: 0 <= cut && cut <= len(x.buffer) && x.buffer == old(x.buffer)
+//@   ensures never-grows: len(x.buffer) <= old(len(x.buffer))
+
+// demand granted by the consumer: exactly one window above its confirmed watermark
+//@ structural writers consumerController.requestUpToSeq: (*consumerController).PreStart, (*consumerController).sendRequest
+//@ structural writers consumerController.confirmedSeq: (*consumerController).PreStart, (*consumerController).handleRegistrationAck, (*consumerController).handleConfirmed
+//@ structural writers consumerController.expectedSeq: (*consumerController).PreStart, (*consumerController).handleRegistrationAck, (*consumerController).handleConfirmed
+//@ structural writers consumerController.window: newConsumerController
+//@ func (*consumerController).sendRequest(x, ctx, viaTimeout)
+//@   preserve consumerController.requestUpToSeq, consumerController.confirmedSeq, consumerController.expectedSeq, consumerController.window
+//@   ensures grants-one-window: x.requestUpToSeq == old(x.requestUpToSeq) || x.requestUpToSeq == x.confirmedSeq + int64(x.window)
+//@   ensures watermark-untouched: x.confirmedSeq == old(x.confirmedSeq) && x.expectedSeq == old(x.expectedSeq)
+
+// ---------------------------------------------------------------------------
+//@ property C42
+//@ load github.com/tochemey/goakt/v4/internal/commands
+
+// A sequenced message is handed to the consumer only when it is the next
+// expected one and nothing is in flight; anything outside [1, requestUpToSeq]
+// is dropped; an old sequence is only re-acknowledged.
+//@ structural writers consumerController.inFlight: (*consumerController).PreStart, (*consumerController).handleRegistrationAck, (*consumerController).handleConfirmed, (*consumerController).deliverFrame
+//@ func (*consumerController).handleSequencedMessage(x, ctx, msg)
+//@   requires msg != nil && len(x.buffer) <= x.window
+//@   preserve consumerController.buffer, consumerController.requestUpToSeq, consumerController.confirmedSeq, consumerController.expectedSeq, consumerController.inFlight, consumerController.window
+//@   at call 1 of (*consumerController).deliver assert delivers-only-the-expected-one: arg2.Seq() == x.expectedSeq && x.inFlight == nil && arg2.Seq() >= 1 && arg2.Seq() <= x.requestUpToSeq
+//@   at call 1 of (*consumerController).bufferMessage assert buffers-only-within-demand: arg2.Seq() >= x.expectedSeq && arg2.Seq() <= x.requestUpToSeq
+//@   at call 2 of (*consumerController).bufferMessage assert buffers-only-within-demand: arg2.Seq() >= x.expectedSeq && arg2.Seq() <= x.requestUpToSeq
+//@   ensures watermarks-untouched-by-arrival: x.confirmedSeq == old(x.confirmedSeq) && x.expectedSeq == old(x.expectedSeq)
+
+// a RegistrationAck of the session already adopted (a duplicate, or the answer
+// to a periodic re-registration) never moves the delivery position: the
+// producer's NextSeq legitimately lags the consumer's watermark
+//@ structural writers consumerController.sessionID: (*consumerController).PreStart, (*consumerController).handleRegistrationAck, (*consumerController).handleTerminated
+//@ func (*consumerController).handleRegistrationAck(x, ctx, ack)
+//@   requires ack != nil
+//@   preserve consumerController.buffer, consumerController.confirmedSeq, consumerController.expectedSeq, consumerController.inFlight, consumerController.window, consumerController.sessionID
+//@   ensures same-session-ack-keeps-position: ack.SessionID() == old(x.sessionID) ==> x.expectedSeq == old(x.expectedSeq) && x.confirmedSeq == old(x.confirmedSeq) && x.inFlight == old(x.inFlight) && x.buffer == old(x.buffer)
+//@   ensures adoption-resumes-after-confirmed: x.sessionID != old(x.sessionID) ==> x.expectedSeq == ack.NextSeq() && x.confirmedSeq == ack.NextSeq() - 1 && x.inFlight == nil && len(x.buffer) == 0
+//@   ensures keeps-watermark-shape: old(x.expectedSeq) == old(x.confirmedSeq) + 1 ==> x.expectedSeq == x.confirmedSeq + 1
+
+// Only the exact in-flight delivery can be confirmed; the watermarks then
+// advance to just past it, so consecutive deliveries tile 1,2,3,... without a gap.
+//@ func (*consumerController).handleConfirmed(x, ctx, confirmed)
+//@   preserve consumerController.buffer, consumerController.requestUpToSeq, consumerController.confirmedSeq, consumerController.expectedSeq, consumerController.inFlight, consumerController.window
+//@   requires confirmed != nil && x.expectedSeq == x.confirmedSeq + 1
+//@   ensures keeps-watermark-shape: x.expectedSeq == x.confirmedSeq + 1
+//@   ensures advances-only-past-in-flight: x.confirmedSeq == old(x.confirmedSeq) || (old(x.inFlight) != nil && x.confirmedSeq == old(x.inFlight.seq))
+//@   ensures stale-confirmation-ignored: old(x.inFlight) == nil ==> x.confirmedSeq == old(x.confirmedSeq) && x.expectedSeq == old(x.expectedSeq)
+
+// drain hands over only the buffered head, and only when it is the expected one
+//@ func (*consumerController).drain(x, ctx)
+//@   preserve consumerController.buffer, consumerController.requestUpToSeq, consumerController.confirmedSeq, consumerController.expectedSeq, consumerController.inFlight, consumerController.window
+//@   at call 1 of (*consumerController).deliver assert hands-over-the-expected-head: arg2 == old(x.buffer[0]) && arg2.Seq() == x.expectedSeq && old(x.inFlight) == nil
+//@   ensures watermarks-untouched: x.confirmedSeq == old(x.confirmedSeq) && x.expectedSeq == old(x.expectedSeq)
+
+// a Request grants exactly the carried bound, never more than the protocol
+// window above the confirmation it carries, and only a genuinely impossible
+// range is terminal (a reordered/duplicated one is absorbed, C42)
+//@ func (*producerController).handleRequest(x, ctx, request)
+//@   requires request != nil
+//@   preserve producerController.demandUpTo, producerController.currentSeq
+//@   at call 1 of (*producerController).terminate assert only-impossible-range-is-terminal: request.ConfirmedSeq() < 0 || request.ConfirmedSeq() > x.currentSeq || request.RequestUpToSeq() < request.ConfirmedSeq() || request.RequestUpToSeq() > request.ConfirmedSeq() + MaxReliableFlowControlWindow
+//@   at call 1 of (*producerController).advanceConfirmed assert confirms-within-produced: arg2 == request.ConfirmedSeq() && arg2 >= 0 && arg2 <= x.currentSeq
+//@   ensures grants-the-carried-bound: x.demandUpTo == old(x.demandUpTo) || (x.demandUpTo == request.RequestUpToSeq() && x.demandUpTo <= request.ConfirmedSeq() + MaxReliableFlowControlWindow && x.demandUpTo >= request.ConfirmedSeq())
+
+//@ func (*producerController).handleAck(x, ctx, ack)
+//@   requires ack != nil
+//@   preserve producerController.demandUpTo, producerController.currentSeq
+//@   at call 1 of (*producerController).terminate assert only-impossible-confirmation-is-terminal: ack.ConfirmedSeq() < 0 || ack.ConfirmedSeq() > x.currentSeq
+//@   at call 1 of (*producerController).advanceConfirmed assert confirms-within-produced: arg2 == ack.ConfirmedSeq() && arg2 >= 0 && arg2 <= x.currentSeq
+//@   ensures ack-grants-nothing: x.demandUpTo == old(x.demandUpTo)
+
+// producer: cumulative confirmation is monotone
+//@ structural writers producerController.confirmedSeq: (*producerController).PreStart, (*producerController).handleRegisterConsumer, (*producerController).advanceConfirmed
+//@ structural mapwriters producerController.unconfirmed: (*producerController).PreStart, (*producerController).advanceConfirmed, (*producerController).completeStore, (*producerController).completeStoreChunked, (*producerController).handleRegisterConsumer, (*producerController).handleProduced, (*producerController).storeChunks
+//@ func (*producerController).advanceConfirmed(x, ctx, confirmed)
+//@   preserve producerController.confirmedSeq, producerController.unconfirmed
+//@   loop 1 invariant cut-in-range: 0 <= cut && cut <= len(x.unconfirmed) && x.unconfirmed == old(x.unconfirmed) && x.confirmedSeq == confirmed
+//@   ensures watermark-monotone: x.confirmedSeq >= old(x.confirmedSeq) && (confirmed > old(x.confirmedSeq) ==> x.confirmedSeq == confirmed) && (confirmed <= old(x.confirmedSeq) ==> x.confirmedSeq == old(x.confirmedSeq))
